@@ -20,6 +20,8 @@ def base_cfg(rng: random.Random) -> dict:
     t2["sim_threshold"] = rng.choice([-1.0, 0.0, 0.0, 0.1, 0.3])
     if rng.random() < 0.5:
         t2["tiers"] = rng.sample(["exact_semantic", "cluster_semantic", "archive"], rng.randint(1, 3))
+        if rng.random() < 0.25:
+            t2["tiers"] = t2["tiers"] + [rng.choice(t2["tiers"])]  # a tier listed twice is accepted by the validator
     t2["ranking"] = rng.choice([{"alpha_sim": 0.75, "beta_recency": 0.2, "gamma_importance": 0.05}, {"alpha_sim": 1.0, "beta_recency": 0.0, "gamma_importance": 0.0},
                                 {"alpha_sim": 0.0, "beta_recency": 1.0, "gamma_importance": 1.0}])
     t2["owner_scope"] = rng.choice(["any", "agent", "world"])
